@@ -741,7 +741,7 @@ class Screen:
             self.placements.append(Placement("iterm2", x, y, w, h, 0, digest, {"keys": keys}))
         else:
             ref = ("img", self._image_seq, digest)
-            for yy in range(y, min(self.rows, y + h)):
+            for yy in range(max(0, y), min(self.rows, y + h)):
                 row = self.grid[yy]
                 for xx in range(x, min(self.cols, x + w)):
                     row[xx] = (" ", None, None, frozenset(), (ref, xx - x, yy - y))
